@@ -32,18 +32,20 @@ VARIABLES l,      \* next line
           fs,     \* frame stack for the step rules: Seq of [gas, pc, stk, msize, op, cost, enterGas, self, node]
           calls,  \* the call tree as the callbacks imply it (C07, C08): Seq of expected nodes, in order of entry
           open,   \* indices of the nodes whose CALL/CREATE frame is open, innermost last
+          jpx,    \* C05 on recorded runs: [on, pos (callbacks seen in this run), exp (Seq of expected firings), i (firings compared)]
           run,    \* name of the current run
           fork,   \* fork index of the current run
           cnt     \* rule counters
 
-vars == <<l, viol, nviol, fs, calls, open, run, fork, cnt>>
+vars == <<l, viol, nviol, fs, calls, open, jpx, run, fork, cnt>>
 
-Comps == {"stream", "gas", "result", "tracerout", "rule", "treeshape", "treecontent"}
+Comps == {"stream", "gas", "result", "tracerout", "rule", "treeshape", "treecontent", "jpseq"}
 
 Init ==
   /\ l = 1 /\ viol = <<>> /\ nviol = [c \in Comps |-> 0] /\ fs = <<>> /\ calls = <<>> /\ open = <<>> /\ run = "" /\ fork = 0
+  /\ jpx = [on |-> FALSE, pos |-> 0, exp |-> <<>>, i |-> 0]
   /\ cnt = [lines |-> 0, runs |-> 0, steps |-> 0, gascont |-> 0, oog |-> 0, pcrule |-> 0, stackrule |-> 0, constgas |-> 0,
-            memgas |-> 0, callret |-> 0, enters |-> 0, results |-> 0, tracerouts |-> 0, nodes |-> 0, refused |-> 0, trees |-> 0]
+            memgas |-> 0, callret |-> 0, enters |-> 0, results |-> 0, tracerouts |-> 0, nodes |-> 0, refused |-> 0, trees |-> 0, forkgas |-> 0, firings |-> 0]
 
 ---------------------------------------------------------------------------
 (* refinement: which fields belong to which component *)
@@ -95,6 +97,15 @@ DynCost(e) ==
   ELSE -1
 
 SortedSeq(S) == LET RECURSIVE f(_) f(T) == IF T = {} THEN <<>> ELSE LET x == CHOOSE y \in T : \A z \in T : y <= z IN <<x>> \o f(T \ {x}) IN f(S)
+\* state-access opcodes whose whole price is fixed per fork (EIP-150, EIP-1884) until EIP-2929 makes it warm/cold:
+\* the set of prices the schedule allows on the fork of this run ({} = not covered)
+ForkPrices(op) ==
+  LET tang == fork >= 2  ist == fork >= 7  ber == fork >= 8 IN
+  IF op = 84 THEN (IF ber THEN {100, 2100} ELSE IF ist THEN {800} ELSE IF tang THEN {200} ELSE {50})                    \* SLOAD
+  ELSE IF op = 49 THEN (IF ber THEN {100, 2600} ELSE IF ist THEN {700} ELSE IF tang THEN {400} ELSE {20})             \* BALANCE
+  ELSE IF op = 59 THEN (IF ber THEN {100, 2600} ELSE IF tang THEN {700} ELSE {20})                                    \* EXTCODESIZE
+  ELSE IF op = 63 /\ fork >= 5 THEN (IF ber THEN {100, 2600} ELSE IF ist THEN {700} ELSE {400})                        \* EXTCODEHASH
+  ELSE {}
 Push(s, x) == Append(s, x)
 Pop(s) == SubSeq(s, 1, Len(s) - 1)
 TopF == fs[Len(fs)]
@@ -112,6 +123,7 @@ StepRules(e) ==
           \cup (IF e.err = "" /\ e.gas >= 0 /\ e.cost >= 0 /\ e.cost > e.gas THEN {"oog:cost exceeds gas but no error"} ELSE {})
           \cup (IF e.err = "" /\ valid /\ t.gas >= 0 /\ e.cost >= 0 /\ e.cost # t.gas THEN {"constgas:constant-price opcode charged differently"} ELSE {})
           \cup (IF e.err = "" /\ valid /\ DynCost(e) >= 0 /\ e.cost >= 0 /\ e.cost # DynCost(e) THEN {"memgas:memory/copy/hash/log/exp price differs from the schedule"} ELSE {})
+          \cup (IF e.err = "" /\ valid /\ ForkPrices(e.op) # {} /\ e.cost >= 0 /\ e.cost \notin ForkPrices(e.op) THEN {"forkgas:state-access price not in the fork's schedule"} ELSE {})
 
 \* the frame record after a step that did not fail
 AfterStep(f, e) ==
@@ -136,6 +148,7 @@ Line ==
          r == Trace[l].r
      IN CASE a.k = "reset" ->
                /\ run' = a.name /\ fork' = ForkIdx(a.kind) /\ fs' = <<>> /\ calls' = <<>> /\ open' = <<>>
+               /\ jpx' = [on |-> a.top = 1, pos |-> 0, exp |-> <<>>, i |-> 0]
                /\ cnt' = [cnt EXCEPT !.lines = @ + 1, !.runs = @ + 1]
                /\ UNCHANGED <<viol, nviol>>
           [] a.k = "enter" ->
@@ -147,9 +160,13 @@ Line ==
                    nd == [from |-> a.from, to |-> (IF a.kind = "CALL" THEN a.to ELSE ""), inh |-> a.inh, inlen |-> a.inlen, val |-> a.val, gasx |-> a.gasx,
                           parent |-> (IF open = <<>> THEN 0 ELSE open[Len(open)]), outh |-> "", outlen |-> 0, err |-> "", leftx |-> "?", refused |-> FALSE, closed |-> FALSE]
                IN /\ fs' = Push(fs, [gas |-> a.gas, pc |-> 0, stk |-> 0, msize |-> 0, op |-> -1, cost |-> 0, pend |-> -1, enterGas |-> a.gas,
-                                      self |-> self, node |-> (IF hasNode THEN Len(calls) + 1 ELSE 0)])
+                                      self |-> self, node |-> (IF hasNode THEN Len(calls) + 1 ELSE 0),
+                                      jp |-> (jpx.on /\ a.kind = "CALL" /\ a.code > 0), to |-> a.to])
                   /\ calls' = IF hasNode THEN Append(calls, nd) ELSE calls
                   /\ open' = IF hasNode THEN Append(open, Len(calls) + 1) ELSE open
+                  \* a message call that runs code fires its pre join point exactly once, after it is announced and before its first instruction
+                  /\ jpx' = [jpx EXCEPT !.pos = @ + 1,
+                                         !.exp = IF jpx.on /\ a.kind = "CALL" /\ a.code > 0 THEN Append(@, [pos |-> jpx.pos + 1, to |-> a.to, point |-> "pre"]) ELSE @]
                   /\ AddViol(LineDiffs(a, r) \cup bad, a, r)
                   /\ cnt' = [cnt EXCEPT !.lines = @ + 1, !.enters = @ + 1]
                   /\ UNCHANGED <<run, fork>>
@@ -172,6 +189,9 @@ Line ==
                               ELSE [calls EXCEPT ![nodeIdx].outh = a.outh, ![nodeIdx].outlen = a.outlen, ![nodeIdx].err = a.err,
                                                  ![nodeIdx].leftx = (IF left >= 0 THEN ToString(left) ELSE "?"), ![nodeIdx].closed = TRUE]
                   /\ open' = IF nodeIdx = 0 \/ open = <<>> THEN open ELSE Pop(open)
+                  \* ... and its post join point exactly once, after its last instruction and before its exit is announced
+                  /\ jpx' = [jpx EXCEPT !.pos = @ + 1,
+                                         !.exp = IF fs # <<>> /\ TopF.jp THEN Append(@, [pos |-> jpx.pos, to |-> TopF.to, point |-> "post"]) ELSE @]
                   /\ AddViol(LineDiffs(a, r) \cup bad, a, r)
                   /\ cnt' = [cnt EXCEPT !.lines = @ + 1, !.callret = @ + (IF left >= 0 THEN 1 ELSE 0)]
                   /\ UNCHANGED <<run, fork>>
@@ -188,6 +208,7 @@ Line ==
                           parent |-> (IF open = <<>> THEN 0 ELSE open[Len(open)]), outh |-> "", outlen |-> 0, err |-> "refused", leftx |-> "?", refused |-> TRUE, closed |-> TRUE]
                IN /\ fs' = f2
                   /\ calls' = IF refusedAttempt THEN Append(calls, rn) ELSE calls
+                  /\ jpx' = [jpx EXCEPT !.pos = @ + 1]
                   /\ UNCHANGED open
                   /\ AddViol(LineDiffs(a, r) \cup (IF rules = {} THEN {} ELSE {"rule"}), a, [r EXCEPT !.name = IF rules = {} THEN r.name ELSE CHOOSE x \in rules : TRUE])
                   /\ cnt' = [cnt EXCEPT !.lines = @ + 1, !.steps = @ + 1,
@@ -197,13 +218,30 @@ Line ==
                                         !.stackrule = @ + (IF fs # <<>> /\ TopF.stk >= 0 THEN 1 ELSE 0),
                                         !.constgas = @ + (IF a.op \in OpDefined /\ OpTable[a.op].gas >= 0 /\ a.err = "" THEN 1 ELSE 0),
                                         !.memgas = @ + (IF a.err = "" /\ DynCost(a) >= 0 THEN 1 ELSE 0),
-                                        !.refused = @ + (IF refusedAttempt THEN 1 ELSE 0)]
+                                        !.refused = @ + (IF refusedAttempt THEN 1 ELSE 0),
+                                        !.forkgas = @ + (IF a.err = "" /\ ForkPrices(a.op) # {} THEN 1 ELSE 0)]
                   /\ UNCHANGED <<run, fork>>
           [] a.k = "result" \/ r.k = "result" ->
                /\ AddViol(LineDiffs(a, r), a, r)
                /\ fs' = <<>>
                /\ cnt' = [cnt EXCEPT !.lines = @ + 1, !.results = @ + 1]
-               /\ UNCHANGED <<run, fork, calls, open>>
+               /\ UNCHANGED <<run, fork, calls, open, jpx>>
+          [] a.k = "jp" ->
+               \* one firing seen by the Aspect provider: a.d = callbacks recorded before it, a.to = contract, a.name = pre/post
+               LET i == jpx.i + 1
+                   known == i <= Len(jpx.exp)
+                   e == IF known THEN jpx.exp[i] ELSE [pos |-> -1, to |-> "", point |-> "none expected"]
+                   bad == a.top = 0 /\ (~known \/ a.d # e.pos \/ a.to # e.to \/ a.name # e.point)
+               IN /\ AddViol(IF bad THEN {"jpseq"} ELSE {}, a, [r EXCEPT !.d = e.pos, !.to = e.to, !.name = e.point])
+                  /\ jpx' = [jpx EXCEPT !.i = i]
+                  /\ cnt' = [cnt EXCEPT !.lines = @ + 1, !.firings = @ + 1]
+                  /\ UNCHANGED <<fs, run, fork, calls, open>>
+          [] a.k = "jpend" ->
+               \* no expected firing may be missing (a.top = 1: the stream was cut, no judgement)
+               LET bad == a.top = 0 /\ (jpx.i # Len(jpx.exp) \/ a.d # Len(jpx.exp))
+               IN /\ AddViol(IF bad THEN {"jpseq"} ELSE {}, a, [r EXCEPT !.d = Len(jpx.exp), !.name = "expected number of firings"])
+                  /\ cnt' = [cnt EXCEPT !.lines = @ + 1]
+                  /\ UNCHANGED <<fs, run, fork, calls, open, jpx>>
           [] a.k = "node" ->
                \* one node of the recorded call tree (index a.d, 1-based; parent a.pc; children a.kids) against the tree the callbacks imply
                LET i == a.d
@@ -219,17 +257,17 @@ Line ==
                IN /\ AddViol(IF a.top = 1 THEN {} ELSE (IF shapeBad THEN {"treeshape"} ELSE {}) \cup (IF contentBad THEN {"treecontent"} ELSE {}), a,
                              [r EXCEPT !.from = e.from, !.to = e.to, !.inh = e.inh, !.outh = e.outh, !.err = e.err, !.usedx = e.leftx, !.gasx = e.gasx, !.pc = e.parent, !.name = "expected from the callbacks"])
                   /\ cnt' = [cnt EXCEPT !.lines = @ + 1, !.nodes = @ + 1]
-                  /\ UNCHANGED <<fs, run, fork, calls, open>>
+                  /\ UNCHANGED <<fs, run, fork, calls, open, jpx>>
           [] a.k = "tree" ->
                \* the whole tree: as many nodes as call attempts, cursor at rest, nothing beyond the last index (a.top = 1: the stream was cut, no judgement)
                LET bad == a.top = 0 /\ (a.d # Len(calls) \/ a.pc # 0 \/ a.stk # 0)
                IN /\ AddViol(IF bad THEN {"treeshape"} ELSE {}, a, [r EXCEPT !.d = Len(calls), !.name = "expected node count, cursor nil, nothing beyond"])
                   /\ cnt' = [cnt EXCEPT !.lines = @ + 1, !.trees = @ + 1]
-                  /\ UNCHANGED <<fs, run, fork, calls, open>>
+                  /\ UNCHANGED <<fs, run, fork, calls, open, jpx>>
           [] OTHER ->     \* tracer outputs, or "none" on the Artela side (the reference stream is longer)
                /\ AddViol(LineDiffs(a, r), a, r)
                /\ cnt' = [cnt EXCEPT !.lines = @ + 1, !.tracerouts = @ + (IF a.k = "tracer" THEN 1 ELSE 0)]
-               /\ UNCHANGED <<fs, run, fork, calls, open>>
+               /\ UNCHANGED <<fs, run, fork, calls, open, jpx>>
   /\ l' = l + 1
 
 Next == Line
